@@ -15,4 +15,4 @@ for id in "$@"; do
 done
 cd /repo && git reset -q --hard HEAD && git clean -fdq && git status --short | head -3
 # evidence/replays written while the seeded change was applied do not describe /repo: drop them
-git -C /verif checkout -q -- evidence replays 2>/dev/null; git -C /verif clean -fdq replays evidence
+git -C /verif checkout -q -- evidence 2>/dev/null; git -C /verif clean -fdq replays evidence
